@@ -77,6 +77,8 @@ func genEngine(c *Ctx) error {
 		p.journalMode = pick(r, []string{"DELETE", "TRUNCATE", "PERSIST"})
 		p.nosync = r.Chance(1, 6)
 		p.walBig = r.Bool()
+		p.closeRelease = true
+		p.exclusiveMode = r.Chance(1, 3)
 		do("open primary")
 		do("createdb")
 		maxGrow := 6
